@@ -262,6 +262,7 @@ func main() {
 	pkgs := load(repo, "./dhcpv4", "./dhcpv6", "./rfc1035label", "./iana", "./dhcpv4/nclient4", "./dhcpv6/nclient6", "./dhcpv4/server4", "./dhcpv6/server6")
 	extractV4(pkgs[mod+"/dhcpv4"])
 	extractMore(pkgs)
+	extractClient(pkgs)
 
 	js, _ := json.MarshalIndent(facts, "", " ")
 	if outJSON != "" {
